@@ -1,0 +1,23 @@
+//go:build verif
+
+package spynode
+
+// Contracts for the govc verifier (/verif). Comment-only.
+
+//@ spec tipOf(n) = n.blocks.height
+//@ spec startOf(n, h, m) = ite(h == -1, max(0, tipOf(n) - m + 1), h)
+//@ spec countOf(n, h, m) = max(0, min(m, tipOf(n) - startOf(n, h, m) + 1))
+
+//@ func (*Node).GetHeaders
+//@   serves C09
+//@   requires node.blocks != nil && internalStorage.InvMem(node.blocks) && internalStorage.InvFull(node.blocks) && maxCount >= 0 && maxCount < 1000000000
+//@   ensures shape: result1 == nil && height >= -1 ==> result0 != nil && result0.StartHeight == uint32(startOf(node, height, maxCount)) && result0.RequestHeight == int32(height)
+//@        && len(result0.Headers) == countOf(node, height, maxCount)
+//@   ensures content: result1 == nil && height >= -1 ==> forall(k, 0, len(result0.Headers), result0.Headers[k] != nil && *result0.Headers[k] == internalStorage.Hdr(node.blocks, startOf(node, height, maxCount) + k))
+//@   ensures negative_empty: result1 == nil && height < -1 ==> len(result0.Headers) == 0
+//@   ensures frame: same(node.blocks, node.blocks.height, node.blocks.lastHeaders) && oldrows(node.blocks.lastHeaders)
+//@   loop 0 invariant startHeight <= i && i <= startHeight + maxCount && same(node.blocks, node.blocks.height, node.blocks.lastHeaders) && oldrows(node.blocks.lastHeaders)
+//@   loop 0 invariant height >= -1 ==> startHeight == startOf(node, height, maxCount) && startHeight >= 0 && len(headers) == i - startHeight && (i > startHeight ==> i <= tipOf(node) + 1)
+//@   loop 0 invariant height < -1 ==> len(headers) == 0 && i == startHeight && startHeight == height
+//@   loop 0 invariant forall(k, 0, len(headers), headers[k] != nil && *headers[k] == internalStorage.Hdr(node.blocks, startHeight + k))
+//@   loop 0 invariant internalStorage.InvMem(node.blocks) && internalStorage.InvFull(node.blocks) && sinceloop(stsame()) && (headers == nil || fresharr(headers))
